@@ -47,6 +47,11 @@ func run(rt *rapid.T) {
 		clean := !m.Dirty
 		switch {
 		case k < 42:
+			if k >= 8 && k < 12 && m.Resurrect(rt, "resurrect") {
+				readded = true
+				touchedAfterCollapse = touchedAfterCollapse || collapsedBelow
+				continue
+			}
 			if k < 8 && m.Revert(rt, "revert") {
 				// a value the key had before (possibly the one stored by the last commit) comes back
 				reverted = true
